@@ -75,6 +75,9 @@ pub trait ShapeDyn: Send + Sync {
     /// map `bytes` with the checked API, apply the operations in order, observe the result.
     /// `Err` = the image was refused by `from_mut_bytes`.
     fn apply(&self, bytes: &mut [u8], ops: &[PathOp]) -> Result<(Vec<OpOut>, Observation), Error>;
+    /// the same through `FlatWrap::<T, &mut [u8]>::from_wrapped_bytes` and `DerefMut` / `Deref` (the wrapper
+    /// validates once and then maps the WHOLE slice without checks on every access)
+    fn apply_wrapped(&self, bytes: &mut [u8], ops: &[PathOp]) -> Result<(Vec<OpOut>, Observation), Error>;
     /// `a == b`, `a.cmp(b)` are not available generically; compare two mapped images through
     /// the accessors instead (content equality of the safe views)
     fn same_content(&self, a: &[u8], b: &[u8]) -> Result<bool, Error>;
@@ -163,6 +166,20 @@ impl<T: Node + ?Sized + 'static> ShapeDyn for ShapeOf<T> {
             return Ok((outs, o));
         }
         Ok((outs, observe(&*x)))
+    }
+    fn apply_wrapped(&self, bytes: &mut [u8], ops: &[PathOp]) -> Result<(Vec<OpOut>, Observation), Error> {
+        let mut w = FlatWrap::<T, &mut [u8]>::from_wrapped_bytes(bytes)?;
+        let mut outs = Vec::with_capacity(ops.len());
+        for o in ops {
+            outs.push((*w).apply(&o.path, &o.op));
+        }
+        if T::validate((*w).as_bytes()).is_err() {
+            let mut o = Observation::default();
+            o.revalidate_ok = false;
+            o.walk.problems.push("the value's bytes do not validate after the call; accessors not exercised".into());
+            return Ok((outs, o));
+        }
+        Ok((outs, observe(&*w)))
     }
     fn same_content(&self, a: &[u8], b: &[u8]) -> Result<bool, Error> {
         Ok(T::from_bytes(a)?.read() == T::from_bytes(b)?.read())
